@@ -4746,15 +4746,6 @@ _ROWS = ['batched-same-rows', 'evolver-same-rows']
 
 KNOWN_C03[:] = [
     {
-        'id': 'optimizer-folded-initial-later-wins',
-        'clause': ['batched-same-rows', 'evolver-same-rows'],
-        'match': 'see KNOWN_C02 folded-changefield-initial-overrides-earlier: AddField(f, initial=A) or '
-                 'ChangeField(f, null=False, initial=A) followed in the same batch by ChangeField(f, initial=B)',
-        'what': 'AppMutator._copy_change_attrs lets the later initial value win when folding: the rows of the '
-                'optimised run hold B where the one-at-a-time run holds A',
-        'pred': lambda sc, ob: folded_initial_overrides(sc['muts'], True),
-    },
-    {
         'id': 'optimizer-rewrites-mutations-in-place',
         'clause': 'definitions-unaltered',
         'match': 'any sequence in which _process_mutation_batch folds '
@@ -10040,6 +10031,18 @@ for _cause, _ref in (
         'what': 'see %s' % _ref,
         'pred': _causes_pred(_cause),
     })
+
+KNOWN_C03.append(
+    {
+        'id': 'optimizer-folded-initial-later-wins',
+        'clause': ['batched-same-rows', 'evolver-same-rows'],
+        'match': 'see KNOWN_C02 folded-changefield-initial-overrides-earlier: AddField(f, initial=A) or '
+                 'ChangeField(f, null=False, initial=A) followed in the same batch by ChangeField(f, initial=B)',
+        'what': 'AppMutator._copy_change_attrs lets the later initial value win when folding: the rows of the '
+                'optimised run hold B where the one-at-a-time run holds A',
+        'pred': lambda sc, ob: folded_initial_overrides(sc['muts'], True),
+    }
+)
 
 _attach_witnesses()
 
